@@ -5,6 +5,7 @@ import (
 	"fmt"
 	"io"
 	"math"
+	"math/bits"
 	"slices"
 	"strconv"
 
@@ -493,6 +494,9 @@ func IsQuadTree(tms tms20.TileMatrixSet) error {
 		if tm.TileHeight != tm.TileWidth {
 			return errors.New("tiles should be square: " + tm.ID)
 		}
+		if bits.OnesCount(tm.TileWidth) != 1 {
+			return errors.New("tile width should be a power of 2: " + tm.ID)
+		}
 		tmIDStringToInt, err := strconv.Atoi(tm.ID)
 		if err != nil {
 			return err
@@ -506,6 +510,9 @@ func IsQuadTree(tms tms20.TileMatrixSet) error {
 		if previousTM == nil {
 			if tmID != 0 {
 				return errors.New("tile matrix IDs should be a range with step 1 starting with 0")
+			}
+			if tm.MatrixWidth != 1 {
+				return errors.New("the first tile matrix should be a single tile: " + tm.ID)
 			}
 		} else {
 			if tmID != previousTMID+1 {
